@@ -63,6 +63,9 @@ class TapeImageContentInjector(TapeImageWorker):
             if os.path.abspath(src) == os.path.abspath(args.archive):
                 # writing the archive would destroy this source
                 raise ValueError(f"source.is.the.archive:{src}")
+            if not (fileName + fileExtension).isascii():
+                # a leader block holds ascii only : such a tape could not be read back
+                raise ValueError(f"not.an.ascii.name:{src}")
             # a leader block holds 8 characters of name and 3 of extension : what is
             # reported is what is stored
             leadBloc = LeaderTapeBlockDescriptor(
